@@ -531,20 +531,16 @@ mod kani_c06 {
     tcp_shape!(c06_tcp_ep_101_s3, 1, 0, 1, false, 3);
     tcp_shape!(c06_tcp_ep_110_s3, 1, 1, 0, false, 3);
 
-    #[kani::proof] #[kani::unwind(14)]
-    fn c06_tcp_parse_emit_parse() {
-        // header with up to 12 option bytes, up to 2 payload bytes
-        const L: usize = 34;
+    /// segment of at most L bytes: header, up to L - 21 option bytes, payload
+    fn tcp_pep<const L: usize>() {
         let buf: [u8; L] = kani::any();
         let n: usize = kani::any();
         kani::assume(n <= L); // tag: range
         let (src, dst) = ip_pair();
         if let Ok(p) = TcpPacket::new_checked(&buf[..n]) {
             if let Ok(r) = TcpRepr::parse(&p, &src, &dst, &ChecksumCapabilities::ignored()) {
-                kani::cover!(r.max_seg_size.is_some() && r.window_scale.is_some(), "segment with MSS and window scale parsed");
-                kani::cover!(r.sack_ranges[0].is_some(), "segment with a SACK block parsed");
+                kani::cover!(r.max_seg_size.is_some(), "segment with an MSS option parsed");
                 if !valid_tcp(&r) { return; } // proviso (e.g. SACK blocks next to SACK-permitted, or without ACK)
-                kani::cover!(r.sack_ranges[0].is_some(), "valid segment with a SACK block parsed");
                 let mut a: [u8; 64] = kani::any();
                 let m = r.buffer_len();
                 assert!(m <= 64);
@@ -567,6 +563,12 @@ mod kani_c06 {
             }
         }
     }
+
+    // (12 option bytes, enough for a SACK block, exhaust CBMC's memory: not attempted)
+    #[kani::proof] #[kani::unwind(6)]
+    fn c06_tcp_parse_emit_parse_opt4() { tcp_pep::<25>(); }
+    #[kani::proof] #[kani::unwind(10)]
+    fn c06_tcp_parse_emit_parse_opt8() { tcp_pep::<29>(); }
 
     // ------------------------------------------------------------------------------------------ ICMPv4
     // proviso: error messages (DstUnreachable, TimeExceeded) carry the offending IPv4 header and at least 8 payload bytes
@@ -791,6 +793,643 @@ mod kani_c06 {
             }
         }
     }
+
+    // ======================================================================== merged from sub-agent B
+    // ------------------------------------------------------------------------------------------ IGMP
+    // proviso (igmp_valid):
+    //   * the group address is 0.0.0.0 or a multicast address (parse rejects everything else);
+    //   * MembershipQuery, Version1: max_resp_time == 0 (an IGMPv1 query is recognised by Max Resp Code == 0);
+    //   * MembershipQuery, Version2: max_resp_time is one of the 255 durations the 8-bit Max Resp Code can express
+    //     (RFC 3376 4.1.1): code c in 1..=127 stands for c deciseconds, c in 128..=255 for
+    //     ((c & 0xf) | 0x10) << (((c >> 4) & 7) + 3) deciseconds; code 0 is excluded (it would be read back as Version1).
+    #[cfg(feature = "proto-ipv4")]
+    fn igmp_code_micros(c: u8) -> u64 {
+        let c = c as u64;
+        let ds = if c < 128 { c } else { ((c & 0xf) | 0x10) << (((c >> 4) & 7) + 3) };
+        ds * 100_000
+    }
+
+    #[cfg(feature = "proto-ipv4")]
+    fn igmp_group_ok(a: &Ipv4Address) -> bool { a.is_unspecified() || a.is_multicast() }
+
+    #[cfg(feature = "proto-ipv4")]
+    fn igmp_valid(r: &IgmpRepr) -> bool {
+        match r {
+            IgmpRepr::MembershipQuery { max_resp_time, group_addr, version } => {
+                igmp_group_ok(group_addr) && match version {
+                    IgmpVersion::Version1 => max_resp_time.total_micros() == 0,
+                    IgmpVersion::Version2 => {
+                        let c: u8 = kani::any(); // witness of representability
+                        c != 0 && max_resp_time.total_micros() == igmp_code_micros(c)
+                    }
+                }
+            }
+            IgmpRepr::MembershipReport { group_addr, .. } => igmp_group_ok(group_addr),
+            IgmpRepr::LeaveGroup { group_addr } => igmp_group_ok(group_addr),
+        }
+    }
+
+    #[cfg(feature = "proto-ipv4")]
+    fn any_igmp() -> IgmpRepr {
+        let version = if kani::any() { IgmpVersion::Version1 } else { IgmpVersion::Version2 };
+        match kani::any::<u8>() % 3 {
+            0 => IgmpRepr::MembershipQuery { max_resp_time: crate::time::Duration::from_micros(kani::any()), group_addr: ip4(), version },
+            1 => IgmpRepr::MembershipReport { group_addr: ip4(), version },
+            _ => IgmpRepr::LeaveGroup { group_addr: ip4() },
+        }
+    }
+
+    #[cfg(feature = "proto-ipv4")]
+    #[kani::proof] #[kani::unwind(10)]
+    fn c06_igmp_emit_parse() {
+        let repr = any_igmp();
+        kani::assume(igmp_valid(&repr)); // tag: proviso
+        let mut a: [u8; 12] = kani::any();
+        let mut b: [u8; 12] = kani::any();
+        let n = repr.buffer_len();
+        assert!(n == 8);
+        repr.emit(&mut IgmpPacket::new_unchecked(&mut a[..n]));
+        repr.emit(&mut IgmpPacket::new_unchecked(&mut b[..n]));
+        let p = IgmpPacket::new_checked(&a[..n]);
+        assert!(p.is_ok(), "C06.igmp: emitted packet passes new_checked");
+        let p = p.unwrap();
+        let r = IgmpRepr::parse(&p);
+        kani::cover!(r.is_ok() && matches!(repr, IgmpRepr::MembershipQuery { version: IgmpVersion::Version2, .. }) && p.max_resp_code() == 0xff, "IGMPv2 query with the largest Max Resp Code round trip reachable");
+        kani::cover!(r.is_ok() && matches!(repr, IgmpRepr::LeaveGroup { .. }), "leave group round trip reachable");
+        assert!(r == Ok(repr.clone()), "C06.igmp: parse(emit(repr)) == repr");
+        assert!(p.verify_checksum(), "C06.igmp: emitted checksum verifies");
+        // prior-content independence of LeaveGroup is split off: see c06_igmp_emit_deterministic
+        if !matches!(repr, IgmpRepr::LeaveGroup { .. }) { same_bytes(&a[..n], &b[..n]); }
+    }
+
+    /// prior-content independence for every message kind (FAILS for LeaveGroup: emit does not write the Max Resp Code byte)
+    #[cfg(feature = "proto-ipv4")]
+    #[kani::proof] #[kani::unwind(10)]
+    fn c06_igmp_emit_deterministic() {
+        let repr = any_igmp();
+        kani::assume(igmp_valid(&repr)); // tag: proviso
+        let mut a: [u8; 8] = kani::any();
+        let mut b: [u8; 8] = kani::any();
+        repr.emit(&mut IgmpPacket::new_unchecked(&mut a[..]));
+        repr.emit(&mut IgmpPacket::new_unchecked(&mut b[..]));
+        kani::cover!(matches!(repr, IgmpRepr::LeaveGroup { .. }), "leave group reachable");
+        same_bytes(&a[..], &b[..]);
+    }
+
+    #[cfg(feature = "proto-ipv4")]
+    #[kani::proof] #[kani::unwind(10)]
+    fn c06_igmp_parse_emit_parse() {
+        const L: usize = 12;
+        let buf: [u8; L] = kani::any();
+        let n: usize = kani::any();
+        kani::assume(n <= L); // tag: range
+        if let Ok(p) = IgmpPacket::new_checked(&buf[..n]) {
+            if let Ok(r) = IgmpRepr::parse(&p) {
+                kani::cover!(matches!(r, IgmpRepr::MembershipQuery { version: IgmpVersion::Version2, .. }) && buf[1] >= 128, "IGMPv2 query with exponent-coded Max Resp Code parsed");
+                kani::cover!(matches!(r, IgmpRepr::MembershipReport { version: IgmpVersion::Version1, .. }) && n > 8, "IGMPv1 report with trailing bytes parsed");
+                let mut a: [u8; 8] = kani::any();
+                let m = r.buffer_len();
+                assert!(m == 8);
+                r.emit(&mut IgmpPacket::new_unchecked(&mut a[..m]));
+                let p2 = IgmpPacket::new_checked(&a[..m]);
+                assert!(p2.is_ok());
+                let p2 = p2.unwrap();
+                assert!(IgmpRepr::parse(&p2) == Ok(r), "C06.igmp: parse(emit(parse(bytes))) == parse(bytes)");
+            }
+        }
+    }
+
+    // ------------------------------------------------------------------------------------------ IEEE 802.15.4
+    // proviso (ieee802154_valid), from the frame format as this crate reads it (Frame::addr_present_flags):
+    //   * security_enabled == false: the Repr cannot hold an auxiliary security header, so it cannot describe a secured frame;
+    //   * frame_type is a 3-bit value in canonical form, frame_version is 2003, 2006 or 2015 (new_checked rejects version 3);
+    //   * sequence_number is present exactly for the frame types that carry one (Beacon, Data, Ack, MAC command, Multipurpose);
+    //   * frame types with addressing fields (Beacon, Data, MAC command, Multipurpose; Ack for version 2015): dst_addr and src_addr
+    //     are Some (Some(Absent) for an absent address), and dst_pan_id / src_pan_id are present exactly when the
+    //     PAN-ID-presence table for (version, dst mode, src mode, PAN ID compression) says so;
+    //     version 2003/2006 with both addresses absent and PAN ID compression is not a frame (new_checked rejects it);
+    //   * frame types without addressing fields: no PAN id and no address in the Repr, PAN ID compression only for version 2015.
+    // ieee802154_emit_supported: the sub-set of these shapes that Repr::emit/buffer_len lay out correctly (they assume that the
+    //   destination PAN id is always present, and that the source PAN id is present iff PAN ID compression is off).
+    #[cfg(feature = "medium-ieee802154")]
+    fn any_ieee802154_addr() -> Option<Ieee802154Address> {
+        match kani::any::<u8>() % 4 {
+            0 => None,
+            1 => Some(Ieee802154Address::Absent),
+            2 => Some(Ieee802154Address::Short(kani::any())),
+            _ => Some(Ieee802154Address::Extended(kani::any())),
+        }
+    }
+
+    #[cfg(feature = "medium-ieee802154")]
+    fn any_ieee802154() -> Ieee802154Repr {
+        Ieee802154Repr {
+            frame_type: Ieee802154FrameType::from(kani::any::<u8>() & 0b111),
+            security_enabled: kani::any(), frame_pending: kani::any(), ack_request: kani::any(),
+            sequence_number: kani::any(), pan_id_compression: kani::any(),
+            frame_version: Ieee802154FrameVersion::from(kani::any::<u8>() & 0b11),
+            dst_pan_id: if kani::any() { Some(Ieee802154Pan(kani::any())) } else { None },
+            dst_addr: any_ieee802154_addr(),
+            src_pan_id: if kani::any() { Some(Ieee802154Pan(kani::any())) } else { None },
+            src_addr: any_ieee802154_addr(),
+        }
+    }
+
+    /// 0 = absent, 2 = short, 8 = extended
+    #[cfg(feature = "medium-ieee802154")]
+    fn ieee802154_mode(a: &Ieee802154Address) -> usize {
+        match a { Ieee802154Address::Absent => 0, Ieee802154Address::Short(_) => 2, Ieee802154Address::Extended(_) => 8 }
+    }
+
+    /// (destination PAN id present, source PAN id present) for the addressing modes (0/2/8) and the compression bit
+    #[cfg(feature = "medium-ieee802154")]
+    fn ieee802154_pan_flags(v2015: bool, dst: usize, src: usize, comp: bool) -> (bool, bool) {
+        if !v2015 {
+            if dst == 0 { (false, true) } else if src == 0 { (true, false) } else { (true, !comp) }
+        } else {
+            match (dst, src, comp) {
+                (0, 0, c) => (c, false),
+                (_, 0, c) => (!c, false),
+                (0, _, _) => (false, true),
+                (8, 8, c) => (!c, false),
+                (_, _, c) => (true, !c),
+            }
+        }
+    }
+
+    #[cfg(feature = "medium-ieee802154")]
+    fn ieee802154_has_addressing(r: &Ieee802154Repr) -> bool {
+        match r.frame_type {
+            Ieee802154FrameType::Beacon | Ieee802154FrameType::Data | Ieee802154FrameType::MacCommand | Ieee802154FrameType::Multipurpose => true,
+            Ieee802154FrameType::Acknowledgement => r.frame_version == Ieee802154FrameVersion::Ieee802154,
+            _ => false,
+        }
+    }
+
+    #[cfg(feature = "medium-ieee802154")]
+    fn ieee802154_valid(r: &Ieee802154Repr) -> bool {
+        let has_seq = matches!(r.frame_type, Ieee802154FrameType::Beacon | Ieee802154FrameType::Data | Ieee802154FrameType::Acknowledgement
+                                             | Ieee802154FrameType::MacCommand | Ieee802154FrameType::Multipurpose);
+        let v2015 = r.frame_version == Ieee802154FrameVersion::Ieee802154;
+        if r.security_enabled || matches!(r.frame_version, Ieee802154FrameVersion::Unknown(_)) || r.sequence_number.is_some() != has_seq { return false; }
+        if ieee802154_has_addressing(r) {
+            match (r.dst_addr, r.src_addr) {
+                (Some(d), Some(s)) => {
+                    let (d, s) = (ieee802154_mode(&d), ieee802154_mode(&s));
+                    let (dp, sp) = ieee802154_pan_flags(v2015, d, s, r.pan_id_compression);
+                    r.dst_pan_id.is_some() == dp && r.src_pan_id.is_some() == sp && (v2015 || !(r.pan_id_compression && d == 0 && s == 0))
+                }
+                _ => false,
+            }
+        } else {
+            r.dst_pan_id.is_none() && r.src_pan_id.is_none() && r.dst_addr.is_none() && r.src_addr.is_none() && (v2015 || !r.pan_id_compression)
+        }
+    }
+
+    #[cfg(feature = "medium-ieee802154")]
+    fn ieee802154_emit_supported(r: &Ieee802154Repr) -> bool {
+        if !ieee802154_has_addressing(r) { return true; }
+        match (r.dst_addr, r.src_addr) {
+            (Some(d), Some(s)) => r.dst_pan_id.is_some() && ieee802154_mode(&d) != 0
+                                  && (ieee802154_mode(&s) == 0 || r.src_pan_id.is_some() == !r.pan_id_compression),
+            _ => false,
+        }
+    }
+
+    /// emit `repr` into a[..buffer_len()], check the round trip
+    #[cfg(feature = "medium-ieee802154")]
+    fn ieee802154_rt(repr: &Ieee802154Repr, a: &mut [u8; 24]) -> usize {
+        let n = repr.buffer_len();
+        assert!(n <= 23);
+        repr.emit(&mut Ieee802154Frame::new_unchecked(&mut a[..n]));
+        let f = Ieee802154Frame::new_checked(&a[..n]);
+        assert!(f.is_ok(), "C06.ieee802154: emitted frame passes new_checked");
+        let f = f.unwrap();
+        let r = Ieee802154Repr::parse(&f);
+        assert!(r.is_ok(), "C06.ieee802154: emitted frame parses");
+        let r = r.unwrap();
+        assert!(r.frame_type == repr.frame_type && r.security_enabled == repr.security_enabled && r.frame_pending == repr.frame_pending
+                && r.ack_request == repr.ack_request && r.sequence_number == repr.sequence_number
+                && r.pan_id_compression == repr.pan_id_compression && r.frame_version == repr.frame_version, "C06.ieee802154: frame control and sequence number survive");
+        assert!(r.dst_pan_id == repr.dst_pan_id && r.src_pan_id == repr.src_pan_id, "C06.ieee802154: PAN ids survive");
+        assert!(r.dst_addr == repr.dst_addr && r.src_addr == repr.src_addr, "C06.ieee802154: addresses survive");
+        n
+    }
+
+    /// Round trip over every frame shape the format permits, into a ZERO-FILLED buffer (emit ORs the flag bits into the
+    /// frame control field, see c06_ieee802154_emit_deterministic).
+    /// FAILS: shapes without a destination PAN id (and 2015 Extended/Extended without compression) are laid out wrongly by emit.
+    #[cfg(feature = "medium-ieee802154")]
+    #[kani::proof] #[kani::unwind(10)]
+    fn c06_ieee802154_emit_parse() {
+        let repr = any_ieee802154();
+        kani::assume(ieee802154_valid(&repr)); // tag: proviso
+        let mut a = [0u8; 24];
+        kani::cover!(repr.dst_pan_id.is_none() && repr.src_pan_id.is_some(), "frame with a source PAN id only reachable");
+        ieee802154_rt(&repr, &mut a);
+    }
+
+    /// Round trip restricted to the shapes emit supports (destination PAN id and address present), zero-filled buffer.
+    #[cfg(feature = "medium-ieee802154")]
+    #[kani::proof] #[kani::unwind(10)]
+    fn c06_ieee802154_emit_parse_dstpan() {
+        let repr = any_ieee802154();
+        kani::assume(ieee802154_valid(&repr) && ieee802154_emit_supported(&repr)); // tag: proviso
+        let mut a = [0u8; 24];
+        kani::cover!(repr.src_pan_id.is_some() && matches!(repr.src_addr, Some(Ieee802154Address::Extended(_))) && matches!(repr.dst_addr, Some(Ieee802154Address::Extended(_))), "frame with both PAN ids and extended addresses reachable");
+        kani::cover!(repr.frame_type == Ieee802154FrameType::Acknowledgement && repr.dst_addr.is_none(), "frame type without addressing fields reachable");
+        ieee802154_rt(&repr, &mut a);
+    }
+
+    /// Prior-content independence on the supported shapes. FAILS: the set_* of the frame control flags only OR bits in, the
+    /// reserved / sequence-number-suppression / IE-present bits and (for frame types without one) the sequence number are not written.
+    #[cfg(feature = "medium-ieee802154")]
+    #[kani::proof] #[kani::unwind(10)]
+    fn c06_ieee802154_emit_deterministic() {
+        let repr = any_ieee802154();
+        kani::assume(ieee802154_valid(&repr) && ieee802154_emit_supported(&repr)); // tag: proviso
+        let mut a: [u8; 24] = kani::any();
+        let mut b: [u8; 24] = kani::any();
+        let n = repr.buffer_len();
+        assert!(n <= 23);
+        repr.emit(&mut Ieee802154Frame::new_unchecked(&mut a[..n]));
+        repr.emit(&mut Ieee802154Frame::new_unchecked(&mut b[..n]));
+        kani::cover!(repr.frame_type == Ieee802154FrameType::Data, "data frame reachable");
+        same_bytes(&a[..n], &b[..n]);
+    }
+
+    #[cfg(feature = "medium-ieee802154")]
+    fn ieee802154_pep(only_supported: bool) {
+        const L: usize = 26;
+        let buf: [u8; L] = kani::any();
+        let n: usize = kani::any();
+        kani::assume(n <= L); // tag: range
+        if let Ok(f) = Ieee802154Frame::new_checked(&buf[..n]) {
+            if let Ok(r) = Ieee802154Repr::parse(&f) {
+                kani::cover!(r.dst_pan_id.is_some() && r.src_pan_id.is_some(), "frame with both PAN ids parsed");
+                if r.security_enabled { return; } // proviso: the Repr does not hold the auxiliary security header
+                if !ieee802154_valid(&r) {
+                    // the one parsed shape outside the proviso: a frame type without addressing fields (e.g. a 2006 Ack) whose frame
+                    // control nevertheless has the PAN ID compression bit (and non-absent addressing modes, else new_checked rejects it)
+                    assert!(!ieee802154_has_addressing(&r) && r.pan_id_compression && r.frame_version != Ieee802154FrameVersion::Ieee802154,
+                            "C06.ieee802154: a parsed repr satisfies the proviso");
+                    return;
+                }
+                if only_supported && !ieee802154_emit_supported(&r) { return; }
+                let mut a = [0u8; 24];
+                ieee802154_rt(&r, &mut a);
+            }
+        }
+    }
+
+    /// FAILS for the shapes emit does not support (see c06_ieee802154_emit_parse)
+    #[cfg(feature = "medium-ieee802154")]
+    #[kani::proof] #[kani::unwind(10)]
+    fn c06_ieee802154_parse_emit_parse() { ieee802154_pep(false); }
+
+    #[cfg(feature = "medium-ieee802154")]
+    #[kani::proof] #[kani::unwind(10)]
+    fn c06_ieee802154_parse_emit_parse_dstpan() { ieee802154_pep(true); }
+
+    // ------------------------------------------------------------------------------------------ 6LoWPAN fragment header
+    // proviso: the datagram size fits its 11-bit field.
+    #[cfg(all(feature = "proto-sixlowpan", feature = "medium-ieee802154"))]
+    fn any_sixlowpan_frag() -> SixlowpanFragRepr {
+        if kani::any() { SixlowpanFragRepr::FirstFragment { size: kani::any(), tag: kani::any() } }
+        else { SixlowpanFragRepr::Fragment { size: kani::any(), tag: kani::any(), offset: kani::any() } }
+    }
+
+    #[cfg(all(feature = "proto-sixlowpan", feature = "medium-ieee802154"))]
+    fn sixlowpan_frag_valid(r: &SixlowpanFragRepr) -> bool {
+        match r { SixlowpanFragRepr::FirstFragment { size, .. } | SixlowpanFragRepr::Fragment { size, .. } => *size < 2048 }
+    }
+
+    #[cfg(all(feature = "proto-sixlowpan", feature = "medium-ieee802154"))]
+    #[kani::proof] #[kani::unwind(8)]
+    fn c06_sixlowpan_frag_emit_parse() {
+        let repr = any_sixlowpan_frag();
+        kani::assume(sixlowpan_frag_valid(&repr)); // tag: proviso
+        let mut a: [u8; 8] = kani::any();
+        let mut b: [u8; 8] = kani::any();
+        let n = repr.buffer_len();
+        assert!(n <= 5);
+        repr.emit(&mut SixlowpanFragPacket::new_unchecked(&mut a[..n]));
+        repr.emit(&mut SixlowpanFragPacket::new_unchecked(&mut b[..n]));
+        let p = SixlowpanFragPacket::new_checked(&a[..n]);
+        assert!(p.is_ok(), "C06.sixlowpan_frag: emitted header passes new_checked");
+        let r = SixlowpanFragRepr::parse(&p.unwrap());
+        kani::cover!(r.is_ok() && matches!(repr, SixlowpanFragRepr::Fragment { size: 2047, .. }), "subsequent fragment with maximal datagram size round trip reachable");
+        assert!(r == Ok(repr), "C06.sixlowpan_frag: parse(emit(repr)) == repr");
+        same_bytes(&a[..n], &b[..n]);
+    }
+
+    #[cfg(all(feature = "proto-sixlowpan", feature = "medium-ieee802154"))]
+    #[kani::proof] #[kani::unwind(8)]
+    fn c06_sixlowpan_frag_parse_emit_parse() {
+        const L: usize = 8;
+        let buf: [u8; L] = kani::any();
+        let n: usize = kani::any();
+        kani::assume(n <= L); // tag: range
+        if let Ok(p) = SixlowpanFragPacket::new_checked(&buf[..n]) {
+            if let Ok(r) = SixlowpanFragRepr::parse(&p) {
+                kani::cover!(matches!(r, SixlowpanFragRepr::FirstFragment { .. }) && n > 4, "first fragment with payload parsed");
+                assert!(sixlowpan_frag_valid(&r), "C06.sixlowpan_frag: a parsed repr satisfies the proviso");
+                let mut a: [u8; 8] = kani::any();
+                let m = r.buffer_len();
+                assert!(m <= 5);
+                r.emit(&mut SixlowpanFragPacket::new_unchecked(&mut a[..m]));
+                let p2 = SixlowpanFragPacket::new_checked(&a[..m]);
+                assert!(p2.is_ok());
+                assert!(SixlowpanFragRepr::parse(&p2.unwrap()) == Ok(r), "C06.sixlowpan_frag: parse(emit(parse(bytes))) == parse(bytes)");
+            }
+        }
+    }
+
+    // ------------------------------------------------------------------------------------------ 6LoWPAN NHC extension header
+    // proviso: none (every ExtHeaderId has an EID code, Reserved is emitted as 5; the next header is canonical by construction).
+    // The Repr covers the NHC octet, the optional in-line next header and the length octet, not the header content.
+    #[cfg(all(feature = "proto-sixlowpan", feature = "medium-ieee802154"))]
+    fn any_sixlowpan_next_header() -> SixlowpanNextHeader {
+        if kani::any() { SixlowpanNextHeader::Compressed } else { SixlowpanNextHeader::Uncompressed(IpProtocol::from(kani::any::<u8>())) }
+    }
+
+    #[cfg(all(feature = "proto-sixlowpan", feature = "medium-ieee802154"))]
+    fn any_sixlowpan_exthdr() -> SixlowpanExtHeaderRepr {
+        let ext_header_id = match kani::any::<u8>() % 7 {
+            0 => SixlowpanExtHeaderId::HopByHopHeader, 1 => SixlowpanExtHeaderId::RoutingHeader, 2 => SixlowpanExtHeaderId::FragmentHeader,
+            3 => SixlowpanExtHeaderId::DestinationOptionsHeader, 4 => SixlowpanExtHeaderId::MobilityHeader, 5 => SixlowpanExtHeaderId::Header,
+            _ => SixlowpanExtHeaderId::Reserved,
+        };
+        SixlowpanExtHeaderRepr { ext_header_id, next_header: any_sixlowpan_next_header(), length: kani::any() }
+    }
+
+    #[cfg(all(feature = "proto-sixlowpan", feature = "medium-ieee802154"))]
+    #[kani::proof] #[kani::unwind(8)]
+    fn c06_sixlowpan_exthdr_emit_parse() {
+        let repr = any_sixlowpan_exthdr();
+        let mut a: [u8; 4] = kani::any();
+        let mut b: [u8; 4] = kani::any();
+        let n = repr.buffer_len();
+        assert!(n <= 3);
+        repr.emit(&mut SixlowpanExtHeaderPacket::new_unchecked(&mut a[..n]));
+        repr.emit(&mut SixlowpanExtHeaderPacket::new_unchecked(&mut b[..n]));
+        let p = SixlowpanExtHeaderPacket::new_checked(&a[..n]);
+        assert!(p.is_ok(), "C06.sixlowpan_exthdr: emitted header passes new_checked");
+        let r = SixlowpanExtHeaderRepr::parse(&p.unwrap());
+        kani::cover!(r.is_ok() && repr.ext_header_id == SixlowpanExtHeaderId::Reserved && n == 3, "reserved EID with in-line next header round trip reachable");
+        assert!(r == Ok(repr), "C06.sixlowpan_exthdr: parse(emit(repr)) == repr");
+        same_bytes(&a[..n], &b[..n]);
+    }
+
+    #[cfg(all(feature = "proto-sixlowpan", feature = "medium-ieee802154"))]
+    #[kani::proof] #[kani::unwind(8)]
+    fn c06_sixlowpan_exthdr_parse_emit_parse() {
+        const L: usize = 6;
+        let buf: [u8; L] = kani::any();
+        let n: usize = kani::any();
+        kani::assume(n <= L); // tag: range
+        if let Ok(p) = SixlowpanExtHeaderPacket::new_checked(&buf[..n]) {
+            if let Ok(r) = SixlowpanExtHeaderRepr::parse(&p) {
+                kani::cover!(r.next_header == SixlowpanNextHeader::Compressed, "extension header with compressed next header parsed");
+                let mut a: [u8; 4] = kani::any();
+                let m = r.buffer_len();
+                assert!(m <= 3);
+                r.emit(&mut SixlowpanExtHeaderPacket::new_unchecked(&mut a[..m]));
+                let p2 = SixlowpanExtHeaderPacket::new_checked(&a[..m]);
+                assert!(p2.is_ok());
+                assert!(SixlowpanExtHeaderRepr::parse(&p2.unwrap()) == Ok(r), "C06.sixlowpan_exthdr: parse(emit(parse(bytes))) == parse(bytes)");
+            }
+        }
+    }
+
+    // ------------------------------------------------------------------------------------------ 6LoWPAN NHC UDP header
+    // proviso: none on the ports (the NHC parser accepts port 0); the payload length fits the UDP length field.
+    // The checksum is always carried in-line by emit (header_len() counts it), but it is WRITTEN only when the UDP tx checksum
+    // is enabled: the round trip harnesses use ChecksumCapabilities::default(); c06_sixlowpan_udpnhc_emit_deterministic shows
+    // the dependence on the prior buffer content when it is not.
+    const UDPNHC_PAY: usize = 4;
+
+    /// port compression class chosen by emit: 3 = both ports in 0xf0b0..=0xf0bf (4+4 bits, P=11), 2 = source port in
+    /// 0xf000..=0xf0ff (8+16 bits, P=10), 1 = only the destination port in 0xf000..=0xf0ff (16+8 bits, P=01), 0 = both in-line (P=00)
+    fn sixlowpan_udpnhc_class(src: u16, dst: u16) -> u8 {
+        if (0xf0b0..=0xf0bf).contains(&src) && (0xf0b0..=0xf0bf).contains(&dst) { 3 }
+        else if (0xf000..=0xf0ff).contains(&src) { 2 }
+        else if (0xf000..=0xf0ff).contains(&dst) { 1 }
+        else { 0 }
+    }
+
+    /// `class`: None = every port pair, Some(c) = the port pairs of compression class c
+    #[cfg(all(feature = "proto-sixlowpan", feature = "medium-ieee802154"))]
+    fn sixlowpan_udpnhc_rt(class: Option<u8>) {
+        let repr = SixlowpanUdpNhcRepr(UdpRepr { src_port: kani::any(), dst_port: kani::any() });
+        let c = sixlowpan_udpnhc_class(repr.src_port, repr.dst_port);
+        if let Some(w) = class { kani::assume(c == w); } // tag: split
+        let pay: [u8; UDPNHC_PAY] = kani::any();
+        let pl: usize = kani::any();
+        kani::assume(pl <= UDPNHC_PAY); // tag: range
+        let (src, dst) = (ip6(), ip6());
+        let caps = ChecksumCapabilities::default();
+        let mut a: [u8; 7 + UDPNHC_PAY] = kani::any();
+        let mut b: [u8; 7 + UDPNHC_PAY] = kani::any();
+        let h = repr.header_len();
+        assert!(h == match c { 3 => 4, 0 => 7, _ => 6 }, "C06.sixlowpan_udpnhc: header_len() is NHC octet + ports + checksum");
+        let n = h + pl;
+        repr.emit(&mut SixlowpanUdpNhcPacket::new_unchecked(&mut a[..n]), &src, &dst, pl, |p| p.copy_from_slice(&pay[..pl]), &caps);
+        repr.emit(&mut SixlowpanUdpNhcPacket::new_unchecked(&mut b[..n]), &src, &dst, pl, |p| p.copy_from_slice(&pay[..pl]), &caps);
+        let p = SixlowpanUdpNhcPacket::new_checked(&a[..n]);
+        assert!(p.is_ok(), "C06.sixlowpan_udpnhc: emitted header passes new_checked");
+        let p = p.unwrap();
+        kani::cover!(pl == UDPNHC_PAY, "emission with payload reachable");
+        assert!(p.src_port() == repr.src_port && p.dst_port() == repr.dst_port, "C06.sixlowpan_udpnhc: ports survive");
+        let r = SixlowpanUdpNhcRepr::parse(&p, &src, &dst, &caps);
+        assert!(r == Ok(repr), "C06.sixlowpan_udpnhc: parse(emit(repr)) == repr (checksum verified)");
+        let got = p.payload();
+        assert!(got.len() == pl);
+        let i: usize = kani::any();
+        if i < pl { assert!(got[i] == pay[i], "C06.sixlowpan_udpnhc: payload survives"); }
+        same_bytes(&a[..n], &b[..n]);
+    }
+
+    /// every port pair. FAILS: see _ports4 and _dst8
+    #[cfg(all(feature = "proto-sixlowpan", feature = "medium-ieee802154"))]
+    #[kani::proof] #[kani::unwind(12)]
+    fn c06_sixlowpan_udpnhc_emit_parse() { sixlowpan_udpnhc_rt(None); }
+
+    /// FAILS: for src and dst both in 0xf0b0..=0xf0bf only (0xf0b0, 0xf0b0) survives (set_ports ANDs the two nibbles, dst_port() does not mask)
+    #[cfg(all(feature = "proto-sixlowpan", feature = "medium-ieee802154"))]
+    #[kani::proof] #[kani::unwind(12)]
+    fn c06_sixlowpan_udpnhc_emit_parse_ports4() { sixlowpan_udpnhc_rt(Some(3)); }
+
+    #[cfg(all(feature = "proto-sixlowpan", feature = "medium-ieee802154"))]
+    #[kani::proof] #[kani::unwind(12)]
+    fn c06_sixlowpan_udpnhc_emit_parse_src8() { sixlowpan_udpnhc_rt(Some(2)); }
+
+    /// FAILS: dst_port() for P=01 reads the first octet of the source port instead of the octet after it
+    #[cfg(all(feature = "proto-sixlowpan", feature = "medium-ieee802154"))]
+    #[kani::proof] #[kani::unwind(12)]
+    fn c06_sixlowpan_udpnhc_emit_parse_dst8() { sixlowpan_udpnhc_rt(Some(1)); }
+
+    #[cfg(all(feature = "proto-sixlowpan", feature = "medium-ieee802154"))]
+    #[kani::proof] #[kani::unwind(12)]
+    fn c06_sixlowpan_udpnhc_emit_parse_full() { sixlowpan_udpnhc_rt(Some(0)); }
+
+    /// FAILS: without tx checksum neither the C bit nor the two checksum octets (which header_len() counts) are written
+    #[cfg(all(feature = "proto-sixlowpan", feature = "medium-ieee802154"))]
+    #[kani::proof] #[kani::unwind(12)]
+    fn c06_sixlowpan_udpnhc_emit_deterministic() {
+        let repr = SixlowpanUdpNhcRepr(UdpRepr { src_port: kani::any(), dst_port: kani::any() });
+        let (src, dst) = (ip6(), ip6());
+        let caps = ChecksumCapabilities::ignored();
+        let mut a: [u8; 7] = kani::any();
+        let mut b: [u8; 7] = kani::any();
+        let h = repr.header_len();
+        assert!(h <= 7);
+        repr.emit(&mut SixlowpanUdpNhcPacket::new_unchecked(&mut a[..h]), &src, &dst, 0, |p| {}, &caps);
+        repr.emit(&mut SixlowpanUdpNhcPacket::new_unchecked(&mut b[..h]), &src, &dst, 0, |p| {}, &caps);
+        kani::cover!(h == 7, "uncompressed ports reachable");
+        same_bytes(&a[..h], &b[..h]);
+    }
+
+    #[cfg(all(feature = "proto-sixlowpan", feature = "medium-ieee802154"))]
+    fn sixlowpan_udpnhc_pep(skip_ports4: bool) {
+        const L: usize = 7 + UDPNHC_PAY;
+        let buf: [u8; L] = kani::any();
+        let n: usize = kani::any();
+        kani::assume(n <= L); // tag: range
+        let (src, dst) = (ip6(), ip6());
+        if let Ok(p) = SixlowpanUdpNhcPacket::new_checked(&buf[..n]) {
+            if let Ok(r) = SixlowpanUdpNhcRepr::parse(&p, &src, &dst, &ChecksumCapabilities::ignored()) {
+                if skip_ports4 && ((buf[0] & 0b01) == 0b01 || sixlowpan_udpnhc_class(r.src_port, r.dst_port) % 2 == 1) { return; }
+                let pay = p.payload();
+                let pl = pay.len();
+                kani::cover!(pl > 0 && p.checksum().is_none(), "header with elided checksum and payload parsed");
+                let caps = ChecksumCapabilities::default();
+                let mut a: [u8; L + 5] = kani::any(); // emit always carries the checksum in-line and may choose a longer port form than the input
+                let m = r.header_len() + pl;
+                assert!(m <= L + 5);
+                r.emit(&mut SixlowpanUdpNhcPacket::new_unchecked(&mut a[..m]), &src, &dst, pl, |q| q.copy_from_slice(pay), &caps);
+                let p2 = SixlowpanUdpNhcPacket::new_checked(&a[..m]);
+                assert!(p2.is_ok());
+                let p2 = p2.unwrap();
+                assert!(p2.src_port() == r.src_port && p2.dst_port() == r.dst_port, "C06.sixlowpan_udpnhc: re-emitted ports survive");
+                assert!(SixlowpanUdpNhcRepr::parse(&p2, &src, &dst, &caps) == Ok(r), "C06.sixlowpan_udpnhc: parse(emit(parse(bytes))) == parse(bytes)");
+                assert!(p2.payload().len() == pl);
+                let i: usize = kani::any();
+                if i < pl { assert!(p2.payload()[i] == pay[i]); }
+            }
+        }
+    }
+
+    /// FAILS for the port forms P=11 and P=01 (see c06_sixlowpan_udpnhc_emit_parse_ports4 / _dst8)
+    #[cfg(all(feature = "proto-sixlowpan", feature = "medium-ieee802154"))]
+    #[kani::proof] #[kani::unwind(12)]
+    fn c06_sixlowpan_udpnhc_parse_emit_parse() { sixlowpan_udpnhc_pep(false); }
+
+    /// input and re-emission restricted to the port forms P=00 and P=10
+    #[cfg(all(feature = "proto-sixlowpan", feature = "medium-ieee802154"))]
+    #[kani::proof] #[kani::unwind(12)]
+    fn c06_sixlowpan_udpnhc_parse_emit_parse_inline() { sixlowpan_udpnhc_pep(true); }
+
+    // ------------------------------------------------------------------------------------------ 6LoWPAN IPHC
+    // proviso: ecn, dscp and flow_label are None (emit always elides traffic class and flow label: "FIXME we don't set anything
+    //   from the traffic flow", while buffer_len() counts them); the link-layer addresses are those handed to parse.
+    #[cfg(all(feature = "proto-sixlowpan", feature = "medium-ieee802154"))]
+    fn any_sixlowpan_iphc() -> SixlowpanIphcRepr {
+        SixlowpanIphcRepr {
+            src_addr: ip6(), ll_src_addr: any_ieee802154_addr(), dst_addr: ip6(), ll_dst_addr: any_ieee802154_addr(),
+            next_header: any_sixlowpan_next_header(), hop_limit: kani::any(), ecn: None, dscp: None, flow_label: None,
+        }
+    }
+
+    #[cfg(all(feature = "proto-sixlowpan", feature = "medium-ieee802154"))]
+    fn sixlowpan_iphc_rt(repr: &SixlowpanIphcRepr) {
+        let mut a: [u8; 40] = kani::any();
+        let mut b: [u8; 40] = kani::any();
+        let n = repr.buffer_len();
+        assert!(n <= 36);
+        repr.emit(&mut SixlowpanIphcPacket::new_unchecked(&mut a[..n]));
+        repr.emit(&mut SixlowpanIphcPacket::new_unchecked(&mut b[..n]));
+        let p = SixlowpanIphcPacket::new_checked(&a[..n]);
+        assert!(p.is_ok(), "C06.sixlowpan_iphc: emitted header passes new_checked");
+        let p = p.unwrap();
+        assert!(p.header_len() == n, "C06.sixlowpan_iphc: emitted header fills buffer_len() exactly");
+        let r = SixlowpanIphcRepr::parse(&p, repr.ll_src_addr, repr.ll_dst_addr, &[]);
+        assert!(r.is_ok(), "C06.sixlowpan_iphc: emitted header parses");
+        let r = r.unwrap();
+        assert!(r.src_addr == repr.src_addr, "C06.sixlowpan_iphc: source address survives");
+        assert!(r.dst_addr == repr.dst_addr, "C06.sixlowpan_iphc: destination address survives");
+        assert!(r.next_header == repr.next_header && r.hop_limit == repr.hop_limit && r.ecn.is_none() && r.dscp.is_none() && r.flow_label.is_none()
+                && r.ll_src_addr == repr.ll_src_addr && r.ll_dst_addr == repr.ll_dst_addr, "C06.sixlowpan_iphc: parse(emit(repr)) == repr");
+        same_bytes(&a[..n], &b[..n]);
+    }
+
+    #[cfg(all(feature = "proto-sixlowpan", feature = "medium-ieee802154"))]
+    #[kani::proof] #[kani::unwind(18)]
+    fn c06_sixlowpan_iphc_emit_parse_unicast() {
+        let repr = any_sixlowpan_iphc();
+        kani::assume(!repr.dst_addr.is_multicast()); // tag: split
+        kani::cover!(repr.src_addr.is_link_local() && repr.buffer_len() == 2, "fully elided addresses reachable");
+        sixlowpan_iphc_rt(&repr);
+    }
+
+    /// FAILS: a multicast destination that fits none of the 8/32/48-bit forms is emitted in-line with DAM = 0b11 instead of 0b00
+    #[cfg(all(feature = "proto-sixlowpan", feature = "medium-ieee802154"))]
+    #[kani::proof] #[kani::unwind(18)]
+    fn c06_sixlowpan_iphc_emit_parse_mcast() {
+        let repr = any_sixlowpan_iphc();
+        kani::assume(repr.dst_addr.is_multicast()); // tag: split
+        kani::assume(repr.src_addr == Ipv6Address::UNSPECIFIED || repr.ll_src_addr.is_none()); // tag: split (source forms are covered by _unicast)
+        kani::cover!(repr.dst_addr.octets()[7] != 0, "multicast address without a compressed form reachable");
+        sixlowpan_iphc_rt(&repr);
+    }
+
+    /// multicast destinations that have an 8/32/48-bit compressed form
+    #[cfg(all(feature = "proto-sixlowpan", feature = "medium-ieee802154"))]
+    #[kani::proof] #[kani::unwind(18)]
+    fn c06_sixlowpan_iphc_emit_parse_mcast_compressed() {
+        let repr = any_sixlowpan_iphc();
+        kani::assume(repr.dst_addr.is_multicast()); // tag: split
+        kani::assume(repr.src_addr == Ipv6Address::UNSPECIFIED || repr.ll_src_addr.is_none()); // tag: split
+        let d = repr.dst_addr.octets();
+        kani::assume(d[2] == 0 && d[3] == 0 && d[4] == 0 && d[5] == 0 && d[6] == 0 && d[7] == 0 && d[8] == 0 && d[9] == 0 && d[10] == 0); // tag: split
+        kani::cover!(repr.buffer_len() == 3 + 6 + 16, "48-bit multicast form reachable");
+        sixlowpan_iphc_rt(&repr);
+    }
+
+    #[cfg(all(feature = "proto-sixlowpan", feature = "medium-ieee802154"))]
+    fn sixlowpan_iphc_pep(skip_mcast: bool) {
+        const L: usize = 40;
+        let buf: [u8; L] = kani::any();
+        let n: usize = kani::any();
+        kani::assume(n <= L); // tag: range
+        let (ls, ld) = (any_ieee802154_addr(), any_ieee802154_addr());
+        let ctx = [SixlowpanAddressContext(kani::any())];
+        if let Ok(p) = SixlowpanIphcPacket::new_checked(&buf[..n]) {
+            if let Ok(r) = SixlowpanIphcRepr::parse(&p, ls, ld, &ctx) {
+                kani::cover!(p.src_context_id() == Some(0) && r.src_addr != Ipv6Address::UNSPECIFIED, "context based source address parsed");
+                if r.ecn.is_some() || r.dscp.is_some() || r.flow_label.is_some() { return; } // proviso
+                if skip_mcast && r.dst_addr.is_multicast() { return; }
+                let mut a: [u8; 40] = kani::any();
+                let m = r.buffer_len();
+                assert!(m <= 36);
+                r.emit(&mut SixlowpanIphcPacket::new_unchecked(&mut a[..m]));
+                let p2 = SixlowpanIphcPacket::new_checked(&a[..m]);
+                assert!(p2.is_ok());
+                let p2 = p2.unwrap();
+                let r2 = SixlowpanIphcRepr::parse(&p2, ls, ld, &ctx);
+                assert!(r2 == Ok(r), "C06.sixlowpan_iphc: parse(emit(parse(bytes))) == parse(bytes)");
+            }
+        }
+    }
+
+    /// FAILS for multicast destinations without a compressed form (see c06_sixlowpan_iphc_emit_parse_mcast)
+    #[cfg(all(feature = "proto-sixlowpan", feature = "medium-ieee802154"))]
+    #[kani::proof] #[kani::unwind(18)]
+    fn c06_sixlowpan_iphc_parse_emit_parse() { sixlowpan_iphc_pep(false); }
+
+    #[cfg(all(feature = "proto-sixlowpan", feature = "medium-ieee802154"))]
+    #[kani::proof] #[kani::unwind(18)]
+    fn c06_sixlowpan_iphc_parse_emit_parse_unicast() { sixlowpan_iphc_pep(true); }
 
     // ==== END kani_c06 ====
 }
